@@ -171,6 +171,24 @@ Theorem broadcast_elementwise : forall dec ar st,
 Proof. exact AesCipher.broadcast_elementwise_pf. Qed.
 Print Assumptions broadcast_elementwise.
 
+(* count boundaries (C-tie on up to 131073 rows made of a few distinct (key, block) pairs, given run-length encoded): a row-wise
+   function commutes with the expansion, and run_row names the distinct row standing at position i of the expansion.  Since the
+   four shapes are map / map2 of the one-key one-block function (above), comparing row i of the big result with the result of
+   the pair run_row finds is comparing it with row i of the expanded expected result. *)
+Theorem rowwise_commutes_with_expansion : forall (A B : Type) (f : A -> B) (d : A) (rows : list A) (runs : list (nat * N)),
+  map f (expand d rows runs) = expand (f d) (map f rows) runs.
+Proof. exact @AesCounts.map_expand. Qed.
+Print Assumptions rowwise_commutes_with_expansion.
+
+Theorem run_row_is_position : forall (A : Type) (d : A) (rows : list A) (runs : list (nat * N)) (i : N) (k : nat),
+  run_row runs i = Some k -> nth (N.to_nat i) (expand d rows runs) d = nth k rows d.
+Proof. exact @AesCounts.nth_expand. Qed.
+Print Assumptions run_row_is_position.
+
+Theorem run_row_defined_below_total : forall (runs : list (nat * N)) (i : N), i < runs_total runs -> exists k, run_row runs i = Some k.
+Proof. exact AesCounts.run_row_total. Qed.
+Print Assumptions run_row_defined_below_total.
+
 (* ================================================================ non-vacuity: FIPS-197 appendix vectors meet the hypotheses
    and the model returns the published values (full cipher and intermediate stop points) *)
 Definition kB := bytes_be 16 0x2b7e151628aed2a6abf7158809cf4f3c.
